@@ -152,6 +152,9 @@ func init() {
 	addMutant(Mutant{"C09-fee-bound-not-checked", "C09", "x/treasury/keeper/msg_server.go",
 		"v.Multiplicator.IsNegative() || v.Multiplicator.GT(maxRelayerFeeMultiplicator)", "v.Multiplicator.IsNegative()",
 		"GT is refused"})
+	addMutant(Mutant{"C09-nil-proof-check-removed", "C09", "util/libcons/consensus.go",
+		"\t\tif hashable == nil {\n\t\t\t// evidence without a proof can't be part of any group\n\t\t\tcontinue\n\t\t}\n", "",
+		"VerifyEvidence|nil-iface"})
 	// ---- C10
 	addMutant(Mutant{"C10-unbonded-admitted", "C10", "x/valset/keeper/keeper.go",
 		"if val.IsBonded() && !val.IsJailed() && k.ValidatorSupportsAllChains(ctx, bz) {", "if !val.IsJailed() && k.ValidatorSupportsAllChains(ctx, bz) {",
